@@ -122,6 +122,10 @@ def run(ck):
         files = gen_tree(rng)
         npaths = rng.randrange(0, 4)
         paths = rng.sample(DIRS, npaths)
+        if len(paths) >= 2 and rng.random() < 0.35:
+            # the same directory given twice (also spelled differently), with another one in between: the order given decides
+            d0 = paths[0]
+            paths.append(rng.choice([d0, d0, d0 + "/", d0 + "/.", "/w/src/.." + d0[2:]]))
         root_dir = rng.choice(["/w/src", "/w/src", "/w/lib1"])
         files[root_dir + "/main.asm"] = ('src', 0xAA, [(rng.choice(['include', 'include', 'incbin']), rng.choice(NAMES + ["d.bin"]))
                                                     for _ in range(rng.randrange(1, 4))], 0)
